@@ -320,7 +320,11 @@ impl Tracer {
                     .collect(),
                 None => vec![0; D + 1],
             };
-            cells.push((id, json!({"id":id,"vs":vs,"nb":nb,"data":cdata(c)})));
+            let mut rec = json!({"id":id,"vs":vs,"nb":nb,"data":cdata(c)});
+            if let Some(offs) = c.periodic_vertex_offsets() {
+                rec["off"] = json!(offs.iter().map(|o| o.iter().map(|x| i64::from(*x)).collect::<Vec<_>>()).collect::<Vec<_>>());
+            }
+            cells.push((id, rec));
         }
         cells.sort_by_key(|x| x.0);
         (
